@@ -122,7 +122,7 @@ def run(tier, work, replay=None):
     q = tier == "quick"
     # ---- leg 1
     res = run_tlc("WsProtocol_MC", cfg(5 if q else 6, "JudgedKinds", "OnePayload", "OneVarMode"), work.sub("tlc"),
-                  coverage=q, timeout=3000)
+                  coverage=q, timeout=3000, extra=["-maxSetSize", "4000000"])      # 11 kinds ^ 6 frames = 1.8 M frame sequences
     tlc_must_pass(res, "WsProtocol_MC exhaustive")
     v.add_tlc(res, f"WsProtocol exhaustive judged kinds, MaxFrames={5 if q else 6}")
     if q:
